@@ -101,7 +101,7 @@ theorem fwdDone_ready {s s' : St} {n L : ℕ} (hd : FwdDone s s' n) (hL : s'.buf
 
 /-- the `while (n >= it.size_)` loop: from any state whose buffer ends the primes of `[start, L]` collected so far, with `n ≥ 1` primes
     still wanted and at least that many left below 2^64, the loop returns the first `acc.length + n` primes `≥ start` -/
-theorem storeNLoop_spec (e : Env) (he : GenSpec e) (vmax start Q : ℕ) (F : List ℕ) (hF : PrimesIn F start Q) (hQ : Q ≤ umax) :
+theorem storeNLoop_specC (e : Env) (he : GenSpec e) (vmax start Q : ℕ) (F : List ℕ) (hF : PrimesIn F start Q) (hQ : Q ≤ umax) :
     ∀ fuel n (s : St) (acc : List ℕ) (L : ℕ), 1 ≤ n → n ≤ fuel → s.buf.getLast? = some L → PrimesIn (acc ++ s.buf) start L →
       FwdReady s (L + 1) → L + 1 ≤ umax → s.hint ≤ umax → s.start ≤ umax → acc.length + n ≤ F.length →
       (∀ x ∈ F.take (acc.length + n), x ≤ vmax) →
@@ -197,7 +197,7 @@ theorem storeNPrimes_correct (e : Env) (he : GenSpec e) (vmax n start nthHint Q 
     obtain ⟨L0, hL0⟩ : ∃ L0, s0.buf.getLast? = some L0 := ⟨s0.buf.getLast hd.ne, List.getLast?_eq_some_getLast hd.ne⟩
     obtain ⟨hP0, hr0, hL0u, _⟩ := fwdDone_ready hd hL0
     simp only [h0]
-    have := storeNLoop_spec e he vmax start Q F hF hQ (n + 1) n s0 [] L0 (by omega) (by omega) hL0 (by simpa using hP0) hr0 hL0u
+    have := storeNLoop_specC e he vmax start Q F hF hQ (n + 1) n s0 [] L0 (by omega) (by omega) hL0 (by simpa using hP0) hr0 hL0u
       (by rw [hd.hint]; exact hstop) hd.start_le (by simpa using hlen) (by simpa using hv)
     simpa using this
 
